@@ -64,7 +64,11 @@ func fingerprint(e *openpgp.Entity) string {
 }
 
 // SigCase is one (possibly tampered) signed package plus what must happen.
+// SigCase.Then: after the first CheckDebsig on a handle, a second call with this keyring
+// ("unrelated" / "empty") is made on the SAME handle and must fail.
 type SigCase struct {
+	Then        string `json:"then,omitempty"`
+	ThenKeyring []byte `json:"thenKeyring,omitempty"`
 	Raw      []byte `json:"raw"`
 	Keyring  []byte `json:"keyring"` // serialised public keys handed to CheckDebsig
 	Role     string `json:"role"`    // role asked for
@@ -95,6 +99,15 @@ func checkSigCase(c SigCase, r *Recorder) error {
 		var verr error
 		if lerr == nil {
 			signer, verr = d.CheckDebsig(keyring, c.Role)
+			if c.Then != "" {
+				// a verdict must not outlive the call: asking the same handle again with a keyring
+				// that does not hold the signer has to fail, whatever happened before
+				kr2, _ := openpgp.ReadKeyRing(bytes.NewReader(c.ThenKeyring))
+				if s2, err2 := d.CheckDebsig(kr2, c.Role); err2 == nil {
+					d.Close()
+					return errf("after a first CheckDebsig (error: %v) a second call on the same handle with an %s keyring succeeded (signer %s)", verr, c.Then, fingerprint(s2))
+				}
+			}
 			d.Close()
 		}
 		both := lerr == nil && verr == nil
@@ -176,7 +189,7 @@ func genSignedBase(t *rapid.T) SignedBase {
 
 var specC16 = Register(&Spec[SigCase]{
 	Prop: "C16", Name: "debsig",
-	Rule: "fault enumeration over generated debsig-signed packages (C14 models with stored/gzip members, role in {origin, maint, archive}, RSA signer from a per-process pool, detached binary signature over debian-binary|control|data in '_gpg<role>'): the untampered package with the signer in the keyring (accept); EVERY single-byte XOR 0x01 inside the three signed members (reject); a decoy control.*/data.* member with a different extension (a stored tar carrying 'Package: evil', or a copy) and a same-name duplicate with changed content inserted at EVERY member position, each loaded 64 times (reject); a role that is not present, an unrelated keyring, an empty keyring (reject); EVERY single-byte XOR inside the signature member (must fail or still verify the unmodified content). Oracle: reject => Load or CheckDebsig fails on every repetition; always: if both succeed, the control data exposed equals the signed package's model and the signer is the signing entity. Non-trivial: every faulted case; distinct by (bytes, role, keyring).",
+	Rule: "fault enumeration over generated debsig-signed packages (C14 models with stored/gzip members, role in {origin, maint, archive}, RSA signer from a per-process pool, detached binary signature over debian-binary|control|data in '_gpg<role>'): the untampered package with the signer in the keyring (accept); EVERY single-byte XOR 0x01 inside the three signed members (reject); a decoy control.*/data.* member with a different extension (a stored tar carrying 'Package: evil', or a copy) and a same-name duplicate with changed content inserted at EVERY member position, each loaded 64 times (reject); a role that is not present, an unrelated keyring, an empty keyring (reject); a second CheckDebsig on the same handle with an unrelated or empty keyring after a successful first one (the second must fail); EVERY single-byte XOR inside the signature member (must fail or still verify the unmodified content). Oracle: reject => Load or CheckDebsig fails on every repetition; always: if both succeed, the control data exposed equals the signed package's model and the signer is the signing entity. Non-trivial: every faulted case; distinct by (bytes, role, keyring).",
 	Check: checkSigCase,
 })
 
@@ -200,6 +213,17 @@ func enumerateSigFaults(b SignedBase, yield func(SigCase) bool) bool {
 	// signer among others
 	c := mk(raw, "accept", "none-signer-among-others", 1)
 	c.Keyring = serializePublic(other, signer)
+	if !yield(c) {
+		return false
+	}
+	// two calls on one handle
+	c = mk(raw, "accept", "then:unrelated-keyring", 1)
+	c.Then, c.ThenKeyring = "unrelated", serializePublic(other)
+	if !yield(c) {
+		return false
+	}
+	c = mk(raw, "accept", "then:empty-keyring", 1)
+	c.Then = "empty"
 	if !yield(c) {
 		return false
 	}
